@@ -3,7 +3,7 @@
    Block offsets are the Slippi spec's event offsets minus one (the command byte). *)
 From Coq Require Import List Arith NArith Bool String.
 From Coq.Strings Require Import Byte.
-From Peppi Require Import Base.Bytes Gen.Funs Model.Start Model.Json Proofs.C05Proof.
+From Peppi Require Import Base.Bytes Gen.Funs Gen.Layouts Model.Start Model.Json Proofs.C05Proof Proofs.StartLayout.
 Import ListNotations.
 
 Theorem C05_bytes_retained : forall blk s, game_start blk = ROk s -> st_bytes s = blk.
@@ -58,7 +58,59 @@ Theorem C05_json_end_omits_absent : forall e,
   (In (sb "players") (keys (json_end e)) <-> en_players e <> None).
 Proof. exact c05_json_end_omits_absent. Qed.
 
+(* ---- the same statements THROUGH THE READ LAYOUT REGENERATED FROM THE SOURCE (Gen/Layouts.v: tools/rust2coq.py walks
+   the sequential reads of game_start / player / game_end in src/io/slippi/de.rs on every run and emits
+   (name, offset, width) tables).  If the source moves, swaps or resizes a read, the regenerated tables change and
+   these theorems no longer follow from the hand model: the build breaks. ---- *)
+Theorem C05_start_fields_from_source : forall blk s, game_start blk = ROk s ->
+  st_version s = (field_at start_reads "version.0" blk, field_at start_reads "version.1" blk,
+                  field_at start_reads "version.2" blk) /\
+  st_bitfield s = bytes_at start_reads "bitfield" blk /\
+  st_bombs s = negb (field_at start_reads "is_raining_bombs" blk =? 0)%N /\
+  st_teams s = negb (field_at start_reads "is_teams" blk =? 0)%N /\
+  st_item_freq s = field_at start_reads "item_spawn_frequency" blk /\
+  st_sd_score s = field_at start_reads "self_destruct_score" blk /\
+  st_stage s = field_at start_reads "stage" blk /\
+  st_timer s = field_at start_reads "timer" blk /\
+  st_item_bitfield s = bytes_at start_reads "item_spawn_bitfield" blk /\
+  st_damage_ratio s = field_at start_reads "damage_ratio" blk /\
+  st_seed s = field_at start_reads "random_seed" blk.
+Proof. exact start_fields_from_source. Qed.
+
+(* the hand model's game_start IS the table-driven decoder: fixed size, the nine optional tails with their sizes and
+   order, the per-player chunk geometry *)
+Theorem C05_start_tails_from_source : forall blk,
+  game_start blk = game_start_src blk /\
+  tail_names start_tails = ["players_v1_0"; "players_v1_3"; "is_pal"; "is_frozen_ps"; "scene"; "players_v3_9";
+                            "players_v3_11"; "language"; "match"]%string.
+Proof. exact start_tails_from_source. Qed.
+
+Theorem C05_player_fields_from_source : forall port v0b teams v10 v13 nm cd v311 p,
+  player_of port v0b teams v10 v13 nm cd v311 = ROk (Some p) ->
+  pl_character p = field_at player_reads "character" v0b /\
+  pl_type p = field_at player_reads "type" v0b /\
+  pl_stocks p = field_at player_reads "stocks" v0b /\
+  pl_costume p = field_at player_reads "costume" v0b /\
+  pl_team p = (if teams then Some (field_at player_reads "team_color" v0b, field_at player_reads "team_shade" v0b) else None).
+Proof.
+  intros port v0b teams v10 v13 nm cd v311 p H.
+  destruct (player_fields_from_source port v0b teams v10 v13 nm cd v311 p H) as (H1 & H2 & H3 & H4 & H5 & _).
+  repeat split; assumption.
+Qed.
+
+Theorem C05_end_fields_from_source : forall blk e, game_end blk = ROk e ->
+  en_method e = field_at end_reads "method" blk /\
+  (en_lras e <> None <-> (e_off "lras_initiator" < length blk)%nat) /\
+  (en_players e <> None <-> (e_off "players" < length blk)%nat).
+Proof.
+  intros blk e H. destruct (end_fields_from_source blk e H) as (H1 & H2 & _ & H4 & _). repeat split; try assumption; apply H2 || apply H4.
+Qed.
+
 Print Assumptions C05_bytes_retained.
+Print Assumptions C05_start_fields_from_source.
+Print Assumptions C05_start_tails_from_source.
+Print Assumptions C05_player_fields_from_source.
+Print Assumptions C05_end_fields_from_source.
 Print Assumptions C05_end_bytes_retained.
 Print Assumptions C05_start_fields.
 Print Assumptions C05_optional_presence.
